@@ -28,6 +28,10 @@ theorem ok_step (s : St) (a : Action) (s' : St) (h : Ok s) (ha : act s a = some 
     · rename_i ms hp; simp at ha; subst ha; simp [Ok, hp] at h ⊢
       intro g hg; rw [h g hg]
     · simp at ha
+  case pAbort =>
+    split at ha
+    · rename_i ms hp; simp at ha; subst ha; simp [Ok, hp] at h ⊢; exact h
+    · simp at ha
   case pSend =>
     split at ha
     · rename_i m rest hp; simp at ha; subst ha; simp [Ok, hp] at h ⊢
